@@ -255,6 +255,8 @@ func runC05(c *core.Ctx) core.Meta {
 	}
 	stID.Ob(idReads == 0)
 
+	checkSeedEffective(c)
+
 	// ---------------- R05.2 host-dependent values ----------------
 	st2 := c.Rule("R05.2", "calls that return host-dependent values (wall clock, global math/rand, crypto/rand, process/goroutine/CPU counts, xid, %p formatting) in simulation code are exactly the listed exceptions, whose results flow only into sinks that simulation code never reads", 2)
 	hostFuncs := map[string]bool{
